@@ -172,10 +172,20 @@ def set_options(t):
         o.no_color = t[3]
 
 
+# Ambient configuration: option values a property does not depend on, switched to their non-default value for a share of
+# the cases of the modules that declare AMBIENT (set per case by Ctx.run_case and recorded in the case as '_amb').
+AMBIENT: dict = {}
+
+
 @contextlib.contextmanager
 def options(lsb0=None, bytealigned=None, mxfp_overflow=None, no_color=None):
     before = get_options()
     o = bitstring.options
+    if AMBIENT:
+        if AMBIENT.get('bytealigned') and not bytealigned:
+            bytealigned = True
+        if AMBIENT.get('mxfp_overflow') and mxfp_overflow is None:
+            mxfp_overflow = AMBIENT['mxfp_overflow']
     try:
         if lsb0 is not None:
             o.lsb0 = lsb0
